@@ -119,7 +119,8 @@ def run_eeprom(case):
     m_live.update(lambda x: None)
     cf_live.pump()
     for pos in range(n):
-        for mask in case['masks']:
+        # the token bytes additionally get the near-miss values (other letter case, neighbouring character, complement)
+        for mask in case['masks'] + ([[0x20], [0x01], [0xFF]] if pos < 4 else []):
             mk = mask[pos % len(mask)] or 1
             orig = dev.mems[0].data[pos]
             dev.mems[0].data[pos] = orig ^ mk
